@@ -265,6 +265,9 @@ def _str(sx, args, kw, st, node):
     if isinstance(t, V._Str):
         return ok(st, v)
     if isinstance(t, V._Int):
+        if not sx.spec_mode:
+            for f in sx.reg.int_str_facts(v.term):
+                st.assume(f)
         return ok(st, Val(V.Str, sx.reg.int_to_str(v.term)))
     if isinstance(t, V._Json):
         B = _B()
@@ -860,10 +863,22 @@ def str_method(sx, obj, attr, args, kwargs, st, node):
             # default: an otherwise unconstrained string (empty for an empty sequence)
             r = sx.fresh(t, "joined", st)
             kind, payload = iter_elems(sx, args[0], st, node)[:2]
+            sepc = sx.str_class(obj, st)
             if kind == "list":
                 st.assume(z3.Implies(payload.ty.n(payload.term) == 0, r.term == z3.StringVal("")))
-            elif kind == "conc" and not payload:
-                st.assume(r.term == z3.StringVal(""))
+                ec = (payload.aux or {}).get("elem_re")
+                if ec is not None:
+                    # sep.join(xs) with every x in L(ec):  (ec (sep ec)*)?
+                    sx.with_class(r, z3.Option(z3.Concat(ec, z3.Star(z3.Concat(sepc, ec)))), st)
+            elif kind == "conc":
+                if not payload:
+                    st.assume(r.term == z3.StringVal(""))
+                else:
+                    cs = [sx.str_class(p, st) for p in payload]
+                    cl = cs[0]
+                    for c in cs[1:]:
+                        cl = z3.Concat(cl, sepc, c)
+                    sx.with_class(r, cl, st)
             m = [R(st, r)]
         return m
     if attr in ("split", "format"):
@@ -943,6 +958,7 @@ def fstring(sx, node, st):
                         raises.append(r2)
                     else:
                         sx.reg.hole(sx, node, v, r2.val, r.val, r2.st)
+                        remember_class(r2.val.term, sx.str_class(r2.val, r2.st))
                         new.append((terms + [r2.val.term], r2.st))
         parts = new
     out = list(raises)
@@ -950,9 +966,32 @@ def fstring(sx, node, st):
         if not terms:
             out.append(R(s, V.mk_str("")))
         elif len(terms) == 1:
-            out.append(R(s, Val(V.Str, terms[0])))
+            out.append(R(s, Val(V.Str, terms[0], {"re": classes_of(sx, terms, s)[0]} if classes_of(sx, terms, s)[0] is not None else None)))
         else:
-            out.append(R(s, Val(V.Str, z3.Concat(*terms))))
+            cls = classes_of(sx, terms, s)
+            r = Val(V.Str, z3.Concat(*terms))
+            if all(c is not None for c in cls) and not sx.spec_mode:
+                # derived fact: the concatenation lies in the concatenation of the parts' languages
+                sx.with_class(r, z3.Concat(*cls), s)
+            out.append(R(s, r))
+    return out
+
+
+_term_class = {}
+
+
+def remember_class(term, cls):
+    _term_class[term.get_id()] = (term, cls)
+
+
+def classes_of(sx, terms, st):
+    out = []
+    for t in terms:
+        hit = _term_class.get(t.get_id())
+        if hit is not None and hit[0].eq(t):
+            out.append(hit[1])
+        else:
+            out.append(sx.str_class(Val(V.Str, t), st))
     return out
 
 
@@ -1142,6 +1181,11 @@ def comprehension(sx, node, st, kind):
         cond2 = z3.substitute(cond, (i, i2))
         s.assume(z3.ForAll([i, i2], z3.Implies(z3.And(i >= 0, i < i2, i2 < n, cond, cond2), cntf(i) < cntf(i2))))
         s.assume((rt.n(res.term) > 0) == z3.Exists([i], z3.And(i >= 0, i < n, cond)))
+        if isinstance(elt.ty, V._Str):
+            ec = sx.str_class(elt, s)
+            if sx.ALLSTR is None or not ec.eq(sx.ALLSTR):
+                res.aux = dict(res.aux or {})
+                res.aux["elem_re"] = ec
         sx.reg.note_comprehension(sx, node, src, res, i, cond, elt, cntf, s)
         if kind == "set":
             outs.extend(_set(sx, [res], {}, s, node))
